@@ -31,6 +31,7 @@ pub fn spec() -> HistSpec {
         id: "C01",
         rule: "random histories of 1..40 string/key-space commands over a colliding key pool, compared step by step with the reference model, canonical dump after every refused command and at the end; non-trivial = at least one successful mutation and at least one of {wrong-type hit, boundary index/integer, overflow, non-integer, SET option combination, rename onto an existing key}; distinct by hash of the command list",
         cmd: || crate::gen::with_arity_noise(crate::gen::c01_cmd()),
+        history: None,
         max_len: 40,
         quick_cases: 8000,
         thorough_cases: 150000,
